@@ -50,7 +50,8 @@ def confirm(outdir, skip_tests):
             continue
         meta = json.load(open(os.path.join(src, 'meta.json')))
         pid = meta.get('property') or os.path.basename(outdir.rstrip('/'))
-        sid = f'{pid}-{name}'
+        rnd = os.path.basename(outdir.rstrip('/'))[len(pid):]         # e.g. 'r2' for a second round
+        sid = f'{pid}-{rnd}{name}'
         print(f'== {sid}: {meta.get("summary")}')
         clean = scratch()
         try:
